@@ -19,19 +19,27 @@ def powR (b : Rat) : Nat → Rat
   | 0 => 1
   | n + 1 => b * powR b n
 
+/-- indices of the reference (outermost) and the next primitive; `none` when there are fewer than two -/
+def outerPair (vals : List Rat) (steep : Bool) : Option (Nat × Nat) :=
+  let order := sortedIdx vals
+  if order.length < 2 then none else
+  if steep then some (order.getD (order.length - 1) 0, order.getD (order.length - 2) 0)
+  else some (order.getD 0 0, order.getD 1 0)
+
+/-- from the outermost exponent `x`, the next one `y`: `none` = raises (equal), `[]` = gate closed -/
+def newFrom (x y : Rat) (bothFree : Bool) (nadd : Nat) : Option (List Rat) :=
+  if x = y then none else
+  if !bothFree then some [] else
+  some ((List.range nadd).map fun i => x * powR (x / y) (i + 1))
+
 /-- the new exponents for one (general-contracted) shell: `none` = raises, `some []` = nothing added -/
 def newExponents (val : ν → Rat) (nadd : Nat) (steep : Bool) (sh : Shell ν) : Option (List Rat) :=
   let vals := sh.exps.map val
-  let order := sortedIdx vals
-  if order.length < 2 then some [] else
-  let refI := if steep then order.getD (order.length - 1) 0 else order.getD 0 0
-  let nextI := if steep then order.getD (order.length - 2) 0 else order.getD 1 0
-  let x := vals.getD refI 0
-  let y := vals.getD nextI 0
-  if x = y then none else
-  let free := freePrims val sh.coefs
-  if !(free.contains refI) || !(free.contains nextI) then some [] else
-  some ((List.range nadd).map fun i => x * powR (x / y) (i + 1))
+  match outerPair vals steep with
+  | none => some []
+  | some (r, n) =>
+    let free := freePrims val sh.coefs
+    newFrom (vals.getD r 0) (vals.getD n 0) (free.contains r && free.contains n) nadd
 
 /-- per shell of the make_general'd copy: (angular momentum list, function type, region, new exponents) -/
 def augmentPlan [DecidableEq ν] (val : ν → Rat) (mgZero : ν) (nadd : Nat) (steep : Bool) (shells : List (Shell ν)) :
